@@ -160,6 +160,8 @@ class Gen:
         # probability of deliberately doing something that is probably wrong
         self.naughty = naughty if naughty is not None else rng.choice([0.0, 0.03, 0.08, 0.2])
         self.budget = 0
+        # "places": struct-field / tuple-element heavy; "loops": nested loops with break / continue
+        self.profile = rng.choice(["default", "default", "places", "loops"])
 
     # env: name -> ty (variable level, definitely assigned); full: set of leaf names believed full
     def pick_full(self, env, full, ty, bor_ok=True):
@@ -279,6 +281,10 @@ class Gen:
 
     def simple(self, env, full, in_loop_pre):
         """one simple statement, updating env/full"""
+        if self.profile == "places" and self.r.random() < 0.5:
+            st = self.places_stmt(env, full, in_loop_pre)
+            if st:
+                return st
         r = self.r.random()
         if self.borrowed and self.r.random() < self.naughty * 0.4:   # assign a borrowed parameter
             n = self.r.choice(sorted(self.borrowed))
@@ -366,6 +372,65 @@ class Gen:
         self.fill(full, v, ty)
         return ("assign", [(v, ty)], e)
 
+    def places_stmt(self, env, full, in_loop_pre):
+        """statements about struct fields and tuple elements"""
+        r = self.r.random()
+        structs = [n for n, t in env.items() if t == "s"]
+        tuples = [n for n, t in env.items() if t == "t"]
+        if r < 0.22:      # unpack a tuple
+            a, b = self.fresh_var(env, "q", in_loop_pre), self.fresh_var(env, "q", in_loop_pre)
+            if a and b and a != b and (self.r.random() < self.naughty or (a not in full and b not in full)):
+                src = self.place(env, full, "t", True)
+                if src:
+                    self.consume(full, src, "t")
+                    e = ("pl", src, "t")
+                else:
+                    e = ("call", "mk_t", [])
+                self.kill_var(env, full, a); self.kill_var(env, full, b)
+                env[a] = env[b] = "q"
+                self.fill(full, a, "q"); self.fill(full, b, "q")
+                return ("assign", [(a, "q"), (b, "q")], e)
+        if r < 0.45 and structs:      # update a field in place: s.f = thru(s.f) / s.f = <other qubit>
+            s = self.r.choice(structs)
+            fld = f"{s}.{self.r.choice(['a', 'b'])}"
+            if fld in full and self.r.random() > self.naughty:
+                if self.r.random() < 0.5:
+                    return ("assign", [(fld, "q")], ("call", "thru", [("pl", fld, "q")]))
+                self.consume(full, fld, "q")
+                return ("expr", ("call", self.r.choice(["own", "measure", "discard"]), [("pl", fld, "q")]))
+            e = self.value(env, full, "q")
+            full.add(fld)
+            return ("assign", [(fld, "q")], e)
+        if r < 0.6 and tuples:        # struct from tuple elements / element use
+            tp = self.r.choice(tuples)
+            v = self.fresh_var(env, "s", in_loop_pre)
+            if v and f"{tp}[0]" in full and f"{tp}[1]" in full and v not in full:
+                self.consume(full, tp, "t")
+                self.kill_var(env, full, v)
+                env[v] = "s"; self.fill(full, v, "s")
+                return ("assign", [(v, "s")], ("call", "S", [("pl", f"{tp}[1]", "q"), ("pl", f"{tp}[0]", "q")]))
+        if r < 0.75 and structs:      # tuple from struct fields
+            s = self.r.choice(structs)
+            v = self.fresh_var(env, "t", in_loop_pre)
+            if v and f"{s}.a" in full and f"{s}.b" in full:
+                self.consume(full, s, "s")
+                self.kill_var(env, full, v)
+                env[v] = "t"; self.fill(full, v, "t")
+                return ("assign", [(v, "t")], ("tup", [("pl", f"{s}.b", "q"), ("pl", f"{s}.a", "q")]))
+        if r < 0.9:                   # a new aggregate
+            ty = self.r.choice(["s", "t"])
+            v = self.fresh_var(env, ty, in_loop_pre)
+            if v and not (v in env and any(l in full for l, _ in leaves_of(v, env[v]))):
+                e = self.value(env, full, ty)
+                self.kill_var(env, full, v)
+                env[v] = ty; self.fill(full, v, ty)
+                return ("assign", [(v, ty)], e)
+        # borrow / cx on sub-places
+        a, b = self.place(env, full, "q", False), self.place(env, full, "q", False)
+        if a and b and a != b and ("." in a + b or "[" in a + b):
+            return ("expr", ("call", "cx", [("pl", a, "q"), ("pl", b, "q")]))
+        return None
+
     def kill_var(self, env, full, v):
         if v in env:
             for l, _ in leaves_of(v, env[v]):
@@ -417,6 +482,16 @@ class Gen:
                 break
             self.budget -= 1
             r = self.r.random()
+            loopy = self.profile == "loops"
+            if in_loop and self.r.random() < (0.16 if loopy else 0.04):
+                # guarded early exit: the code after it stays reachable
+                c = self.cond(env, full, allow_true=False)
+                e1, f1 = dict(env), set(full)
+                pre = [self.simple(e1, f1, in_loop_pre)] if self.r.random() < 0.4 else []
+                out.append(("if", c, pre + [(self.r.choice(["break", "continue"]),)], []))
+                continue
+            if loopy and depth < 3 and r < 0.22:
+                r = 0.2       # a loop
             if depth < 3 and r < 0.17:
                 c = self.cond(env, full, allow_true=False)
                 e1, f1 = dict(env), set(full)
